@@ -25,6 +25,7 @@ import (
 	"net/http"
 	"net/http/httptest"
 	"sort"
+	"strconv"
 	"strings"
 	"sync"
 	"sync/atomic"
@@ -278,14 +279,15 @@ func newVC12Env(t *testing.T) *vC12Env {
 // ---------- one case ----------
 
 type vC12State struct {
-	e        *vC12Env
-	local    *vC12WS
-	lsid     string
-	sess     *ClientSession
-	pc       *vC12WS // current connection of the peer (nil: none)
-	helloIds []string
-	base     int32 // hub.readPumpActive without federation read loops
-	cloud    string
+	e               *vC12Env
+	local           *vC12WS
+	lsid            string
+	sess            *ClientSession
+	pc              *vC12WS // current connection of the peer (nil: none)
+	helloIds        []string
+	base            int32 // hub.readPumpActive without federation read loops
+	localClosedSeen bool
+	cloud           string
 }
 
 func (s *vC12State) fed() *FederationClient {
@@ -297,9 +299,9 @@ func (s *vC12State) fed() *FederationClient {
 
 // subst replaces the symbols of an op line by this run's values.
 func (s *vC12State) subst(doc string) string {
-	doc = strings.ReplaceAll(doc, "$LSID", s.lsid)
+	doc = strings.ReplaceAll(doc, "@LSID@", s.lsid)
 	for i := len(s.helloIds); i >= 1; i-- {
-		doc = strings.ReplaceAll(doc, fmt.Sprintf("$HID%d", i), s.helloIds[i-1])
+		doc = strings.ReplaceAll(doc, fmt.Sprintf("@HID%d@", i), s.helloIds[i-1])
 	}
 	return doc
 }
@@ -307,10 +309,10 @@ func (s *vC12State) subst(doc string) string {
 // unsubst is the inverse, applied to everything observed.
 func (s *vC12State) unsubst(x string) string {
 	if s.lsid != "" {
-		x = strings.ReplaceAll(x, s.lsid, "$LSID")
+		x = strings.ReplaceAll(x, s.lsid, "@LSID@")
 	}
 	for i, h := range s.helloIds {
-		x = strings.ReplaceAll(x, h, fmt.Sprintf("$HID%d", i+1))
+		x = strings.ReplaceAll(x, h, fmt.Sprintf("@HID%d@", i+1))
 	}
 	return x
 }
@@ -531,7 +533,10 @@ func (s *vC12State) collect(P []string, pre ...string) string {
 			L = append(L, s.canonLocal(t))
 		}
 		if closed {
-			L = append(L, "closed")
+			if !s.localClosedSeen {
+				L = append(L, "closed")
+				s.localClosedSeen = true
+			}
 		} else if timedOut {
 			L = append(L, "local-stuck")
 			s.e.dirty = true
@@ -714,10 +719,22 @@ func (s *vC12State) step(line string) string {
 		if err := old.send(websocket.TextMessage, s.subst(vDec(f[1]))); err != nil {
 			return "no-conn"
 		}
-		s.pc = nil
-		out := s.settle([]string{"wfault"})
 		old.closeHard()
-		return out
+		s.pc = nil
+		return s.settle([]string{"wfault"})
+	case "big":
+		if s.pc == nil {
+			return "no-conn"
+		}
+		n, _ := strconv.Atoi(f[1])
+		pre, post := `{"type":"noop","pad":"`, `"}`
+		if n < len(pre)+len(post) {
+			n = len(pre) + len(post)
+		}
+		if err := s.pc.send(websocket.TextMessage, pre+strings.Repeat("a", n-len(pre)-len(post))+post); err != nil {
+			return "no-conn"
+		}
+		return s.settle(nil)
 	case "drop":
 		if s.pc == nil {
 			return "no-conn"
